@@ -83,7 +83,9 @@ ALSO = {"C03:MarkAtUnknownRecord": ("C04",),              # a misplaced mark doe
         "C02:MessageNumberSharedByTwoMessages": ("C03",),
         "C14:BounceRecordRemovedBeforeNoticeQueued": ("C03",),
         "C03:MessageRemovedWithRecipientNeitherDeliveredNorBounced": ("C14",),
-        "C15:DaemonStopsMakingProgress": ("C16",)}
+        "C15:DaemonStopsMakingProgress": ("C16",),
+        # "named, with the failure reason, in a bounce that was itself successfully queued" is part of C03's statement too
+        "C14:FailedRecipientHasNoParagraph": ("C03",), "C14:FailedRecipientNotNamed": ("C03",), "C14:FailedRecipientNotNamedInBounce": ("C03",)}
 
 
 def history_from_replay(hj):
